@@ -238,8 +238,8 @@ def make_scenario(check, base_seed, index, tier):
 
 def _chunk(args):
     cid, base_seed, tier, start, stop = args
-    faulthandler.dump_traceback_later(900, exit=True)
     check = load_check(cid)
+    faulthandler.dump_traceback_later((stop - start) * getattr(check, "RUN_TIMEOUT", 60.0) + 300, exit=True)
     out = {"clauses": Counter(), "probes": Counter(), "faults": Counter(), "policies": Counter(),
            "digests": [], "outcomes": set(), "nontrivial": [], "fail": [], "decisions": 0, "operations": 0,
            "inconclusive": 0, "n": 0, "variants": Counter()}
